@@ -384,6 +384,19 @@ def edit(rng, aliases, kind, d, tmp, files):
                 vv = v.pop(kk)
                 v[kk + " , zz"] = vv
                 return "envkey"
+    if dk == "reaction" and r < 0.78:                           # explicit zero coefficient in the equation text
+        k = next((k for k in d if canon(aliases, dk, k) == "stoichiometry"), None)
+        if k is not None and isinstance(d[k], str) and "->" in d[k]:
+            lhs, rhs = d[k].split("->", 1)
+            c = rng.random()
+            if c < 0.4:
+                lhs = "0 A" + (" + " + lhs if lhs.strip() else " ")
+            elif c < 0.7:
+                rhs = (rhs.rstrip() + " + 0 A ") if rhs.strip() else " 0 A "
+            else:
+                lhs, rhs = "0 A" + (" + " + lhs if lhs.strip() else " "), " 0 A" + (" + " + rhs if rhs.strip() else " ")
+            d[k] = lhs + "->" + rhs
+            return "zero-coefficient"
     if r < 0.80:                                                # malformed
         c = rng.random()
         if c < 0.3:
